@@ -116,6 +116,8 @@ def run(ctx):
             tell1, sub, tell2, seek, read = [e for e in p.events if e.kind in ("TELL", "SUB", "SEEK", "READ")]
             D = next(iter(t.deltas), None)
             val = ("sub", o, N.const("value"))
+            if o[0] == "call" and o[1] == ("free", "dict") and not o[2] and "value" in dict(o[3]):
+                val = dict(o[3])["value"]          # the substituted dict(value=None): its entry, as S folds the subscript
             ctx.ob("C14.R2", fi, sub["m"] == "_build" and sub["target"] == subcon and sub["obj"] == val and sub["stream"] == STREAM, "the inner construct builds obj['value'] into the stream", key="value branch build")
             kw, spoiled = final_record(p)
             ok = D is not None and kw.get("data") == read["res"] and t.pos_before(read) == p0 and t.val(read["length"]) == D \
